@@ -14,11 +14,11 @@ import (
 func init() {
 	Register(&Rule{
 		ID: "C28", Section: "5 C28",
-		Technique: "witness-path analysis (drain-or-close after the handler in chunkWriter.writeHeader, response.finishRequest and bfe_http.body.Close), loop-exit reachability in conn.serve (no path from an error reply or a failed parse back to readRequest), implied-fact analysis of serveRequest's keep-alive result",
+		Technique: "witness-path analysis (drain-or-close after the handler in chunkWriter.writeHeader, response.finishRequest and bfe_http.body.Close), loop-exit reachability in conn.serve (no path from an error reply or a failed parse back to readRequest), implied-fact analysis of serveRequest's keep-alive result, guard census of the chunk writer's connection writes and of the chunking flag (bodiless replies)",
 		Meta: core.Meta{
 			Level:       "other",
-			Explanation: "Decides: (a) drain-or-close in chunkWriter.writeHeader - every path to the header write either ran the bounded io.CopyN(Discard, Body, limit), or saw ContentLength == 0, closeAfterReply == true, or an un-invited 100-continue body; after the CopyN every path calls requestTooLarge() or Body.Close(); Body.Close() is reached only when fewer bytes than the limit were discarded (the body ended), requestTooLarge() is followed by setHeader.connection = \"close\" on every path to the header write, and requestTooLarge sets closeAfterReply and requestBodyLimitHit on every path; (b) response.finishRequest closes (drains) the request body on every path that did not see closeAfterReply == true; bfe_http.body.Close copies the rest of the body to Discard unless the body is already closed or the connection is closing; expectContinueReader.Close closes the wrapped body; (c) in conn.serve the next readRequest is reachable from a readRequest only over err == nil, never after an error reply written by serve itself (413/414/400, sendExpectationFailed, finishRequest, closeWriteAndWait), and after serveRequest only over `serveRequest() == true` and `closeAfterReply == false`; (d) serveRequest returns true only if both ReverseProxy.ServeHTTP and FinishReq returned keepAlive. Not covered: ordering of replies, at-most-one final reply per request, 100-continue sequencing on the wire, how the body length was determined (C24), what ServeHTTP returns for which failure, hijacked/websocket connections.",
-			RuleText:    "obligations = per CopyN drain site (resolved, bounded, close-only-if-ended, close announced), the no-drain paths, the writers in requestTooLarge, the exits of finishRequest / body.Close / expectContinueReader.Close, per terminal reply in conn.serve, the two loop-continue edges, per return of serveRequest",
+			Explanation: "Decides: (a) drain-or-close in chunkWriter.writeHeader - every path to the header write either ran the bounded io.CopyN(Discard, Body, limit), or saw ContentLength == 0, closeAfterReply == true, or an un-invited 100-continue body; after the CopyN every path calls requestTooLarge() or Body.Close(); Body.Close() is reached only when fewer bytes than the limit were discarded (the body ended), requestTooLarge() is followed by setHeader.connection = \"close\" on every path to the header write, and requestTooLarge sets closeAfterReply and requestBodyLimitHit on every path; (b) response.finishRequest closes (drains) the request body on every path that did not see closeAfterReply == true; bfe_http.body.Close copies the rest of the body to Discard unless the body is already closed or the connection is closing; expectContinueReader.Close closes the wrapped body; (c) in conn.serve the next readRequest is reachable from a readRequest only over err == nil, never after an error reply written by serve itself (413/414/400, sendExpectationFailed, finishRequest, closeWriteAndWait), and after serveRequest only over `serveRequest() == true` and `closeAfterReply == false`; (d) serveRequest returns true only if both ReverseProxy.ServeHTTP and FinishReq returned keepAlive. (e) nothing follows the header block of a bodiless reply: every write of chunkWriter.Write/close/flush to the connection buffer happens under Method != HEAD or under chunking == true, and, where a write relies on the chunking flag alone (the last-chunk in close), chunking is switched on only under Method != HEAD and status not 304/204 (no stray last-chunk after a HEAD reply). Not covered: ordering of replies, at-most-one final reply per request, 100-continue sequencing on the wire, how the body length was determined (C24), what ServeHTTP returns for which failure, hijacked/websocket connections.",
+			RuleText:    "obligations = per CopyN drain site (resolved, bounded, close-only-if-ended, close announced), the no-drain paths, the writers in requestTooLarge, the exits of finishRequest / body.Close / expectContinueReader.Close, per terminal reply in conn.serve, the two loop-continue edges, per return of serveRequest, per connection write of the chunk writer after the header block, per store switching chunking on",
 		},
 		Run: runC28,
 		Mutants: []Mutant{
@@ -34,6 +34,9 @@ func init() {
 			{Name: "finish-skips-drain", File: "bfe_server/response.go", Old: "	if !w.closeAfterReply {\n		w.req.Body.Close()\n	}", New: "	if !w.closeAfterReply && w.req.ContentLength > 0 {\n		w.req.Body.Close()\n	}", Expect: "finish-drains"},
 			{Name: "body-close-never-drains-untrailered", File: "bfe_http/transfer.go", Old: "	case b.hdr == nil && b.closing:", New: "	case b.hdr == nil:", Expect: "body-close-drains"},
 			{Name: "serve-ignores-keepalive-verdict", File: "bfe_server/http_conn.go", Old: "		if !isKeepAlive || w.closeAfterReply {\n			if w.requestBodyLimitHit {", New: "		if (!isKeepAlive && w.requestBodyLimitHit) || w.closeAfterReply {\n			if w.requestBodyLimitHit {", Expect: "serve-honours-close"},
+			{Name: "head-reply-chunked", File: "bfe_server/chunk_writer.go", Old: "	if w.req.Method == \"HEAD\" || code == bfe_http.StatusNotModified {\n		// do nothing", New: "	if (isHEAD && hasCL) || code == bfe_http.StatusNotModified {\n		// do nothing", Expect: "bodiless-silent|"},
+			{Name: "last-chunk-for-head", File: "bfe_server/chunk_writer.go", Old: "	if cw.chunking {\n		// zero EOF chunk,", New: "	if cw.chunking || cw.res.req.Method == \"HEAD\" {\n		// zero EOF chunk,", Expect: "bodiless-silent|"},
+			{Name: "silent-close-tests-head-too", Silent: true, File: "bfe_server/chunk_writer.go", Old: "	if cw.chunking {\n		// zero EOF chunk,", New: "	if cw.chunking && cw.res.req.Method != \"HEAD\" {\n		// zero EOF chunk,"},
 			{Name: "silent-log-before-break", Silent: true, File: "bfe_server/http_conn.go", Old: "			w.sendExpectationFailed()\n			break", New: "			w.sendExpectationFailed()\n			log.Logger.Debug(\"conn.serve(): expectation failed\")\n			break"},
 			{Name: "silent-drain-rewritten", Silent: true, File: "bfe_server/chunk_writer.go", Old: "			if n >= maxPostHandlerReadBytes {\n				w.requestTooLarge()\n				delHeader(\"Connection\")\n				setHeader.connection = \"close\"\n			} else {\n				w.req.Body.Close()\n			}", New: "			if n < maxPostHandlerReadBytes {\n				w.req.Body.Close()\n			} else {\n				delHeader(\"Connection\")\n				setHeader.connection = \"close\"\n				w.requestTooLarge()\n			}"},
 		},
@@ -236,6 +239,9 @@ func runC28(c *core.Ctx) {
 		c.Check("body-close-drains", "expectContinueReader.Close", ec.Pos(), bad == nil, "expectContinueReader.Close can return without closing (draining) the wrapped request body")
 	}
 
+	// (e) nothing follows the header block of a bodiless reply
+	c28BodilessSilent(c, e)
+
 	// (c) conn.serve
 	if sv := e.serve; sv != nil {
 		var reads []*ssa.Call
@@ -328,4 +334,98 @@ func runC28(c *core.Ctx) {
 		}
 		c.Min("keepalive-conjunction", 1)
 	}
+}
+
+// c28BodilessSilent: the reply to a HEAD request ends with its header block.
+// Every byte chunkWriter puts on the connection outside writeHeader (chunk-size
+// line, body bytes, chunk CRLF, last-chunk) is an obligation: it must be
+// written only under `Method != HEAD`, or only under `chunking == true` - and
+// then chunking itself may be switched on only under Method != HEAD and status
+// not 304 / 204. A stray last-chunk after a HEAD reply would be read by the
+// client as the beginning of the next reply.
+func c28BodilessSilent(c *core.Ctx, e *h1bSrv) {
+	const srv = "bfe_server"
+	const rule = "bodiless-silent"
+	connBuf := h1bField(c, srv, "conn.buf")
+	if connBuf == nil || e.writeHeader == nil || e.chunking == nil || e.method == nil || e.status == nil {
+		return
+	}
+	isMethod, isStatus := h1bIsField(e.method), h1bIsField(e.status)
+	notHEAD := func(f h1bFact) bool { return h1bNe(f, isMethod, h1bIsStr("HEAD")) }
+	chunkingOn := func(f h1bFact) bool { return f.Pol && h1bIsField(e.chunking)(f.V) }
+	// the connection buffer, possibly boxed into an io.Writer or narrowed to its embedded Writer
+	isConnBuf := func(v ssa.Value) bool {
+		for i := 0; i < 4; i++ {
+			f, base := h1bFieldOf(v)
+			if f == connBuf {
+				return true
+			}
+			if f == nil || !f.Embedded() {
+				return false
+			}
+			v = base
+		}
+		return false
+	}
+	writers := map[string]bool{"Write": true, "WriteString": true, "WriteByte": true, "WriteRune": true, "ReadFrom": true}
+	isWireWrite := func(ci ssa.CallInstruction) bool {
+		cc := ci.Common()
+		if cc.IsInvoke() {
+			return writers[cc.Method.Name()] && isConnBuf(cc.Value)
+		}
+		sc := cc.StaticCallee()
+		if sc == nil || len(cc.Args) == 0 {
+			return false
+		}
+		if sc.Signature.Recv() != nil {
+			return writers[sc.Name()] && isConnBuf(cc.Args[0])
+		}
+		switch core.FuncKey(sc) {
+		case "fmt.Fprintf", "fmt.Fprint", "fmt.Fprintln", "io.WriteString", "io.Copy", "io.CopyN", "io.CopyBuffer":
+			return isConnBuf(cc.Args[0])
+		}
+		return false
+	}
+	n := map[string]int{}
+	sites, gated := 0, 0
+	for _, name := range []string{"chunkWriter.Write", "chunkWriter.close", "chunkWriter.flush"} {
+		fn := h1bFunc(c, srv, name)
+		if fn == nil {
+			continue
+		}
+		for _, ci := range core.AllCalls(fn) {
+			if !isWireWrite(ci) {
+				continue
+			}
+			sites++
+			b := ci.Block()
+			byHead, byChunk := h1bGuarded(b, notHEAD), h1bGuarded(b, chunkingOn)
+			if byChunk && !byHead {
+				gated++
+			}
+			c.Check(rule, h1bOrd(name+":wire-write", n), ci.Pos(), byHead || byChunk,
+				"chunkWriter puts bytes on the connection after the header block ("+core.Render(ci.Value())+") on a path that established neither Method != HEAD nor chunking == true: the reply to a HEAD request would be followed by stray bytes that the client parses as the start of the next reply; established: "+h1bJoinFacts(h1bFactsAt(b)))
+		}
+	}
+	c.Check(rule, "chunkWriter:wire-writes", e.writeHeader.Pos(), sites >= 3, fmt.Sprintf("only %d writes to conn.buf found in chunkWriter.Write/close/flush; the body writer is not in a form the rule follows", sites))
+	// the chunking flag is the licence of the gated writes
+	k := 0
+	for _, st := range core.FieldStores(c.P.SrcFuncs(srv), e.chunking) {
+		if v, isB := h1bConstBool(st.Store.Val); isB && !v || gated == 0 {
+			continue // (no write relies on the flag alone: nothing to license)
+		}
+		k++
+		b := st.Store.Block()
+		key := fmt.Sprintf("%s:chunking#%d:", core.FuncKey(st.Fn), k)
+		facts := h1bJoinFacts(h1bFactsAt(b))
+		c.Check(rule, key+"not-head", st.Store.Pos(), h1bGuarded(b, notHEAD),
+			"chunking is switched on without Method != HEAD: chunkWriter.close then emits the last-chunk \"0\\r\\n\\r\\n\" after the header block of a HEAD reply and the next reply on the connection is mis-parsed; established: "+facts)
+		for _, code := range []int64{304, 204} {
+			code := code
+			c.Check(rule, fmt.Sprintf("%snot-%d", key, code), st.Store.Pos(), h1bGuarded(b, func(f h1bFact) bool { return h1bNe(f, isStatus, h1bIsInt(code)) }),
+				fmt.Sprintf("chunking is switched on without status != %d: a reply that must not have a body would be followed by a last-chunk; established: %s", code, facts))
+		}
+	}
+	c.Check(rule, "chunking:licence", e.writeHeader.Pos(), gated == 0 || k >= 1, "writes are licensed by chunking == true but no store switching chunking on was found")
+	c.Min(rule, 5)
 }
